@@ -580,14 +580,18 @@ def build_snapshot_action(tp_id: str, args: Dict[str, str], watches: List[str]) 
             return None
 
     condition = args[CONDITION] if CONDITION in args else None
-    return LocationAction(tp_id, condition, {
+    config = {
         WATCHES: watches,
         FRAME_TYPE: args.get(FRAME_TYPE, SINGLE_FRAME_TYPE),
         STACK_TYPE: args.get(STACK_TYPE, STACK),
         FIRE_COUNT: args.get(FIRE_COUNT, '1'),
         FIRE_PERIOD: args.get(FIRE_PERIOD, '1000'),
         LOG_MSG: args.get(LOG_MSG, None),
-    }, LocationAction.ActionType.Snapshot)
+    }
+    if STAGE in args:
+        # the capture stages defer the snapshot until the method/line has completed
+        config[STAGE] = args[STAGE]
+    return LocationAction(tp_id, condition, config, LocationAction.ActionType.Snapshot)
 
 
 def build_log_action(tp_id: str, args: Dict[str, str]) -> Optional[LocationAction]:
